@@ -81,6 +81,21 @@ class TimeWorld(World):
             return dt(o.attrs["instant"], args[0].attrs["offset"], aware=True)
         if o.kind == "dt" and method == "timestamp" and not args and o.attrs["aware"]:
             return SV(US2F(o.attrs["instant"]), "val")
+        if o.kind == "dt" and method == "astimezone" and len(args) == 1 and isinstance(args[0], Opaque) and args[0].kind == "tz" and not o.attrs["aware"]:
+            # a naive datetime is taken to be in the PROCESS's local time zone, whatever that is
+            return dt(o.attrs["instant"] - LOCAL_OFFSET, args[0].attrs["offset"], aware=True)
+        if o.kind == "dt" and method == "timestamp" and not args and not o.attrs["aware"]:
+            return SV(US2F(o.attrs["instant"] - LOCAL_OFFSET), "val")
+        if o.kind == "external" and o.name == "datetime.datetime" and method == "__call__":
+            # datetime(y, m, d[, h, mi, s, us][, tzinfo=tz]) with literal fields: the wall-clock fields, counted in us from 1970-01-01T00:00
+            import datetime as _dt
+            if all(isinstance(a, int) and not isinstance(a, bool) for a in args) and 3 <= len(args) <= 7 and set(kwargs) <= {"tzinfo"}:
+                wall = z3.IntVal((_dt.datetime(*args) - _dt.datetime(1970, 1, 1)) // _dt.timedelta(microseconds=1))
+                tz = kwargs.get("tzinfo")
+                if tz is None:
+                    return dt(wall, z3.IntVal(0), aware=False)
+                if isinstance(tz, Opaque) and tz.kind == "tz":
+                    return dt(wall - tz.attrs["offset"], tz.attrs["offset"], aware=True)
         raise Unsupported(f"call on {o.kind}.{method}")
 
     def binop(self, it, op, a, b):
@@ -107,6 +122,8 @@ class TimeWorld(World):
 
 
 UTC = Opaque("tz", "utc", offset=z3.IntVal(0))
+# the utc offset of the process's local time zone (TZ / the system's setting): an input the library does not control - any value
+LOCAL_OFFSET = z3.Int("utc_offset_of_the_process_local_time_zone_us")
 
 
 class Harness:
@@ -143,10 +160,15 @@ class Harness:
             tz = k.get("tz", a[1] if len(a) > 1 else None)
             us = z3.IntVal(int(x * 10 ** 6)) if isinstance(x, (int, float)) else F2US(it.to_val(x))
             if tz is None:
-                return dt(us, z3.IntVal(0), aware=False)  # naive local time: not an aware datetime
+                return dt(us + LOCAL_OFFSET, z3.IntVal(0), aware=False)  # naive local time: the wall-clock fields of the process's zone
             if isinstance(tz, Opaque) and tz.kind == "tz":
                 return dt(us, tz.attrs["offset"], aware=True)
             raise Unsupported("fromtimestamp tz")
+
+        def utcfromtimestamp(it_, a, k):
+            x = a[0]
+            us = z3.IntVal(int(x * 10 ** 6)) if isinstance(x, (int, float)) else F2US(it.to_val(x))
+            return dt(us, z3.IntVal(0), aware=False)
 
         def now(it_, a, k):
             tz = k.get("tz", a[0] if a else None)
@@ -172,6 +194,7 @@ class Harness:
         tdn.name = "timedelta"
         it.externals["datetime.timedelta"] = tdn
         it.externals["datetime.datetime.fromtimestamp"] = Native("fromtimestamp", fromtimestamp)
+        it.externals["datetime.datetime.utcfromtimestamp"] = Native("utcfromtimestamp", utcfromtimestamp)
         it.externals["datetime.datetime.now"] = Native("now", now)
         it.externals["datetime.datetime.utcnow"] = Native("utcnow", utcnow)
         it.externals["datetime.timezone.utc"] = UTC
@@ -248,6 +271,21 @@ class Harness:
                 self.rec(ctx, uid + "/timezone-aware", r.attrs["aware"] is True, detail="a naive datetime (datetime.now() / utcnow() without tz)")
                 self.rec(ctx, uid + "/in-UTC", r.attrs["offset"] == 0)
 
+    def run_constants(self, ctx):
+        """the two constants every conversion goes through (reactivex/internal/constants.py), evaluated from their real defining expressions under
+        the datetime contract, for EVERY utc offset of the process's local time zone"""
+        it = self.setup(ctx)
+        uid = "reactivex/internal/constants.py::"
+        z = it.module_get("reactivex.internal.constants", "UTC_ZERO")
+        ok = isinstance(z, Opaque) and z.kind == "dt"
+        self.rec(ctx, uid + "UTC_ZERO/is-a-datetime", ok, detail=f"{z!r}")
+        if ok:
+            self.rec(ctx, uid + "UTC_ZERO/is-timezone-aware-and-in-UTC", z3.And(z.attrs["aware"] is True, z.attrs["offset"] == 0))
+            self.rec(ctx, uid + "UTC_ZERO/is-the-epoch-whatever-the-local-time-zone-of-the-process", z.attrs["instant"] == 0, detail=f"instant {z.attrs['instant']} us")
+        d = it.module_get("reactivex.internal.constants", "DELTA_ZERO")
+        ok = isinstance(d, Opaque) and d.kind == "td"
+        self.rec(ctx, uid + "DELTA_ZERO/is-the-empty-span", ok and d.attrs["us"] == 0, detail=f"{d!r}")
+
     def lemmas(self):
         """the round-trip and order statements of the property, over the postconditions above and A-float"""
         from .interp import Ctx
@@ -276,12 +314,15 @@ class Harness:
         try:
             for q in ("Scheduler.to_seconds", "Scheduler.to_datetime", "Scheduler.to_timedelta", "Scheduler.now"):
                 self.functions[f"{FILE}::{q}"] = self.loader.sha(FILE, q)
+            self.functions["reactivex/internal/constants.py::<module>"] = __import__("hashlib").sha256(self.loader.load_file("reactivex/internal/constants.py").src.encode()).hexdigest()[:16]
             self.functions["reactivex/internal/basic.py::default_now"] = self.loader.sha("reactivex/internal/basic.py", "default_now")
             for fname in ("to_seconds", "to_datetime", "to_timedelta"):
                 for kind in ("float", "timedelta", "datetime"):
                     for p in explore(lambda ctx, _f=fname, _k=kind: self.run_fn(ctx, _f, _k)):
                         self.results.extend(p.results)
             for p in explore(lambda ctx: self.run_now(ctx, "reactivex.scheduler.scheduler", "Scheduler", FILE)):
+                self.results.extend(p.results)
+            for p in explore(self.run_constants):
                 self.results.extend(p.results)
             self.lemmas()
         except Unsupported as e:
@@ -297,6 +338,13 @@ MUTANTS = [
     ("value = datetime.fromtimestamp((value), tz=timezone.utc)", "value = datetime.fromtimestamp(value)", "to_datetime builds a naive local datetime"),
     ("value = UTC_ZERO + value", "value = UTC_ZERO - value", "to_datetime subtracts the span"),
     ("elif not isinstance(value, timedelta):\n            value = timedelta(seconds=value)", "else:\n            value = timedelta(seconds=value)", "to_timedelta converts a timedelta again"),
+]
+
+
+CONST_MUTANTS = [
+    ("UTC_ZERO = datetime.fromtimestamp(0, tz=timezone.utc)", "UTC_ZERO = datetime(1970, 1, 1).astimezone(timezone.utc)", "the epoch constant read as local time"),
+    ("UTC_ZERO = datetime.fromtimestamp(0, tz=timezone.utc)", "UTC_ZERO = datetime.fromtimestamp(0).replace(tzinfo=timezone.utc)", "the epoch constant: local wall clock labelled UTC"),
+    ("DELTA_ZERO = timedelta(0)", "DELTA_ZERO = timedelta(seconds=1)", "the empty span is one second"),
 ]
 
 
@@ -321,6 +369,19 @@ def run_unit(desc):
             hm = Harness(ld).run()
             mf["mutants"] += 1
             if hm.unsupported or any(r.verdict != "proved" for r in hm.results):
+                mf["killed"] += 1
+            else:
+                mf["survivors"].append(what)
+        cfile = "reactivex/internal/constants.py"
+        csrc = Loader().load_file(cfile).src
+        for old, new, what in CONST_MUTANTS:
+            if old not in csrc:
+                continue
+            ld = Loader()
+            ld.overrides = {cfile: csrc.replace(old, new, 1)}
+            hm = Harness(ld).run()
+            mf["mutants"] += 1
+            if any(r.verdict == "refuted" for r in hm.results):
                 mf["killed"] += 1
             else:
                 mf["survivors"].append(what)
